@@ -450,6 +450,20 @@ func genC02(seed uint64, idx int, tier string) *Plan {
 			}
 		}
 	}
+	if kind == "wrong-id-ext" && idx%4 >= 2 {
+		// a key list with an entry whose config does not parse in front, and
+		// another usable key whose id the forged extension may name
+		other := KeySpec{ID: p.Target.ID + 9, PublicName: p.Target.PublicName, Suites: append([]echbox.Suite(nil), echbox.AllSuites...), KeySeed: p.Target.KeySeed + 77, Retry: true}
+		bad := KeySpec{ID: p.Target.ID + 3, PublicName: p.Target.PublicName, Suites: append([]echbox.Suite(nil), echbox.AllSuites...), KeySeed: p.Target.KeySeed + 78, BadConfig: true}
+		p.Keys = append([]KeySpec{bad}, append(p.Keys, other)...)
+		p.Mutations[0].B |= 1
+	}
+	if idx%5 == 3 {
+		p.Interleave = 1 + (idx/5)%3
+		if p.Interleave > 1 && p.ReadBuf == 0 {
+			p.ReadBuf = 5
+		}
+	}
 	if idx%2 == 1 {
 		switch kind {
 		case "unlisted-suite", "wrong-suite-ext":
